@@ -103,6 +103,7 @@ void wcfg_defaults(struct wcfg *c)
         c->max_inv = 2;
         c->line_max = 96;
         c->mon = P_ALL;
+        c->merge_doomed = 1;
         c->gen.max_name = 4; c->gen.max_args = 4; c->gen.lines = 1;
         static const int8_t dw[] = {CAT_RETURN_STATE_OK, CAT_RETURN_STATE_ERROR};
         for (int k = 0; k < 4; k++) { memcpy(c->codes[k], dw, 2); c->ncodes[k] = 2; memcpy(c->ecodes[k], dw, 2); c->necodes[k] = 2; }
@@ -413,7 +414,7 @@ void world_init(void)
         I.S->trig_left = (uint8_t)W.trig_budget;
         I.S->flag_left = (uint8_t)W.flag_budget;
         mon_init();
-        I.out_n = 0;
+        I.out_n = 0; I.raw_n = 0; I.out_mark = 0;
         I.depth = 0;
         w_feed_pos = 0;
 }
@@ -462,6 +463,7 @@ static int io_read(char *ch)
                 *ch = (char)b;
                 L.reads_delivered++;
                 if (L.in_n < (int)sizeof L.in) L.in[L.in_n++] = b;
+                if (I.raw_n < (int)sizeof I.raw) I.raw[I.raw_n++] = b;
                 mon_input(b);
                 return 1;
         }
@@ -476,6 +478,7 @@ static int io_read(char *ch)
         *ch = (char)b;
         L.reads_delivered++;
         if (L.in_n < (int)sizeof L.in) L.in[L.in_n++] = b;
+        if (I.raw_n < (int)sizeof I.raw) I.raw[I.raw_n++] = b;
         mon_input(b);
         return 1;
 }
@@ -797,6 +800,7 @@ static int do_service(void)
         int want_stutter = (W.mon & (P_C12 | P_C15)) != 0;
         if (want_stutter) pre = w_lib_hash();
         int was_ok = I.S->last_svc_ok;
+        int evt_idle_pre = mon_evt_idle();
         api_enter();
         mon_service_begin();
         cat_status s = cat_service(I.obj);
@@ -820,7 +824,7 @@ static int do_service(void)
                 }
         }
         /* C12 premise: a call that only met refusals changes nothing */
-        if ((W.mon & P_C12) && !W.scribble && !activity && (L.reads_refused || L.writes_refused) && mon_evt_idle() && !mon_hold_pending()) {
+        if ((W.mon & P_C12) && !W.scribble && !activity && (L.reads_refused || L.writes_refused) && evt_idle_pre && !mon_hold_pending()) {
                 WS.stutters_checked++;
                 if (w_lib_hash() != pre)
                         VIOL(P_C12, "C12: a cat_service call in which io only refused (read refused %d, write refused %d) changed parser state",
@@ -922,7 +926,16 @@ static void m_describe(int action, char *out, size_t n)
         snprintf(out, n, "%s %d", names[a[action].kind], a[action].arg);
 }
 
-static void esc_bytes(char *out, size_t n, const uint8_t *b, int len)
+void w_sample(const char *fmt, ...)
+{
+        if (WS.nsamples >= 6) return;
+        va_list ap;
+        va_start(ap, fmt);
+        vsnprintf(WS.samples[WS.nsamples++], sizeof WS.samples[0], fmt, ap);
+        va_end(ap);
+}
+
+void w_esc(char *out, size_t n, const uint8_t *b, int len)
 {
         size_t o = 0;
         for (int i = 0; i < len && o + 6 < n; i++) {
@@ -937,8 +950,8 @@ static void esc_bytes(char *out, size_t n, const uint8_t *b, int len)
 static void m_describe_result(char *out, size_t n)
 {
         char in[64], ou[300];
-        esc_bytes(in, sizeof in, L.in, L.in_n);
-        esc_bytes(ou, sizeof ou, L.out, L.out_n);
+        w_esc(in, sizeof in, L.in, L.in_n);
+        w_esc(ou, sizeof ou, L.out, L.out_n);
         snprintf(out, n, "ret=%d in='%s' out='%s' rd_refused=%d wr_refused=%d handlers=%d varcbs=%d%s%s", I.last_ret, in, ou, L.reads_refused, L.writes_refused,
                  L.handler_calls, L.var_calls, L.lock_failed ? " LOCK-FAILED" : "", L.unlock_failed ? " UNLOCK-FAILED" : "");
 }
@@ -971,6 +984,27 @@ int world_run_bytes(const uint8_t *bytes, int n)
                 if (calls > limit) { VIOL(P_C15 | P_C01, "C15: no quiescence after %d cat_service calls for a %d byte input", calls, n); break; }
         }
         return calls;
+}
+
+/* re-run recorded lines eagerly on a fresh parser so that evidence samples show real input/output pairs */
+void world_resolve_samples(void)
+{
+        int keep_rr = W.refuse_read, keep_rw = W.refuse_write, keep_mf = W.mutex_faults;
+        W.refuse_read = W.refuse_write = W.mutex_faults = 0;
+        for (int k = 0; k < WS.nsample_lines; k++) {
+                world_init();
+                mcx_violation_clear();
+                uint64_t ld = WS.lines_done;
+                world_run_bytes(WS.sample_line[k], WS.sample_len[k]);
+                WS.lines_done = ld;
+                char a[300], b[300];
+                w_esc(a, sizeof a, WS.sample_line[k], WS.sample_len[k]);
+                w_esc(b, sizeof b, (const uint8_t *)w_output(), w_output_len());
+                w_sample("line '%s' -> output '%s'%s", a, b, mcx_violated() ? " (VIOLATION)" : " (agrees with reference model)");
+                mcx_violation_clear();
+        }
+        w_feed = NULL;
+        W.refuse_read = keep_rr; W.refuse_write = keep_rw; W.mutex_faults = keep_mf;
 }
 
 void world_config_header(char *out, size_t n)
